@@ -96,11 +96,15 @@ impl CommandAcknowledgement {
 impl CommandAcknowledgementHandle {
     /// Marks the flag to indicate that the command execution is done and changes the `CommandStatus`
     pub(crate) fn done(&self, status: CommandStatus) {
+        #[cfg(cached_verif)] crate::cache::verif::point("D_Status", self as *const Self as i64);
         *self.status.lock() = status;
+        #[cfg(cached_verif)] crate::cache::verif::point("D_Flag", self as *const Self as i64);
         self.done.store(true, Ordering::Release);
+        #[cfg(cached_verif)] crate::cache::verif::point("D_Wake", self as *const Self as i64);
         if let Some(waker) = &self.waker_state.lock().waker {
             waker.wake_by_ref();
         }
+        #[cfg(cached_verif)] crate::cache::verif::event("done", &[self as *const Self as i64, crate::cache::verif::status_code(&status)]);
     }
 }
 
@@ -111,6 +115,7 @@ impl Future for &CommandAcknowledgementHandle {
     type Output = CommandStatus;
 
     fn poll(self: Pin<&mut Self>, context: &mut Context<'_>) -> Poll<Self::Output> {
+        #[cfg(cached_verif)] crate::cache::verif::point("P_Lock", (&**self) as *const CommandAcknowledgementHandle as i64);
         let mut guard = self.waker_state.lock();
         match guard.waker.as_ref() {
             Some(waker) => {
@@ -122,10 +127,29 @@ impl Future for &CommandAcknowledgementHandle {
                 guard.waker = Some(context.waker().clone());
             }
         }
+        #[cfg(cached_verif)] crate::cache::verif::point("P_Flag", (&**self) as *const CommandAcknowledgementHandle as i64);
         if self.done.load(Ordering::Acquire) {
+            #[cfg(cached_verif)] crate::cache::verif::point("P_Status", (&**self) as *const CommandAcknowledgementHandle as i64);
             return Poll::Ready(*self.status.lock());
         }
         Poll::Pending
+    }
+}
+
+#[cfg(cached_verif)]
+impl CommandAcknowledgement {
+    pub fn verif_new() -> Arc<CommandAcknowledgement> { Self::new() }
+
+    pub fn verif_done(&self, status: CommandStatus) { self.done(status) }
+}
+
+#[cfg(cached_verif)]
+impl CommandAcknowledgementHandle {
+    pub fn verif_id(&self) -> i64 { self as *const Self as i64 }
+
+    /// (done flag, status cell) without registering a waker; `None` if the status cell is locked.
+    pub fn verif_peek(&self) -> (bool, Option<CommandStatus>) {
+        (self.done.load(Ordering::Acquire), self.status.try_lock().map(|guard| *guard))
     }
 }
 
